@@ -40,7 +40,11 @@ def run(tier, replay=None):
     share = [c for c in l2c if c["hist"][0]["op"] in REBIND and c["hist"][1]["op"] in MUTATE]
     bs = 2500 if tier == "quick" else len(share)
     if len(share) > bs:
-        share = rnd.sample(share, bs)
+        # lists of lists are where the *depth* of sharing shows (a clone shares its rows with the original): all of those pairs
+        deep = [c for c in share if c["ty"] == "nest"]
+        rest = [c for c in share if c["ty"] != "nest"]
+        share = deep + rnd.sample(rest, min(len(rest), bs))
+        C.log(f"[{PID}] sharing pairs: all {len(deep)} over nested lists, {min(len(rest), bs)} of {len(rest)} others")
     if len(l2c) > b2:
         l2c = rnd.sample(l2c, b2)
     l2c = gen.dedupe(share + l2c, key)
